@@ -840,3 +840,368 @@ func (r *Run) c03RandomCounters() {
 		}
 	}
 }
+
+// c03FieldStable: while fn runs, nothing writes field fld of an object that existed before: fn itself has no store to
+// the field, and every store to it in a function reachable from fn (call graph, closures included) goes into an object
+// that the storing function allocated itself or received from a callee whose summary proves its result fresh (a constructor
+// filling in what it is about to return). Two reads of
+// x.fld made during one run of fn, through the same pointer x, then yield the same value.
+func c03FieldStable(p *Prog, sums *Summaries, fn *ssa.Function, fld *types.Var) bool {
+	fresh := func(c *ssa.Function) bool {
+		if sums == nil {
+			return false
+		}
+		sm := sums.Ctor(c)
+		return sm.Why == "" && sm.Fresh
+	}
+	re := p.Reachable([]*ssa.Function{fn}, nil)
+	for _, f := range re.RepoFuncs() {
+		for _, e := range Writes(f) {
+			switch e.Kind {
+			case "field":
+				if e.Field != fld {
+					continue
+				}
+				if f == fn || p.AddrRootClass(f, e.Addr, fresh) != "fresh" {
+					return false
+				}
+			case "deref":
+				// a store through a computed pointer of the field's type could hit the field
+				if pt, ok := e.Addr.Type().Underlying().(*types.Pointer); ok && types.Identical(pt.Elem(), fld.Type()) {
+					return false
+				}
+			}
+		}
+	}
+	return true
+}
+
+// sameRead: a and b are the same value wherever both have been evaluated - the same SSA value, or two loads of the same
+// field through the same pointer (itself the same value in this sense) of a field that is stable while the function runs
+// (c03FieldStable). The blocks of the two loads must lie on one dominator chain: the pointer's definition dominates both,
+// so after its latest execution both loads have been executed again before any point that both dominate, and they read
+// through the same instance of the pointer.
+func (s *innovSite) sameRead(p *Prog, a, b ssa.Value, depth int) bool {
+	a, b = stripCT(a), stripCT(b)
+	if a == b {
+		return true
+	}
+	if depth > 4 {
+		return false
+	}
+	ua, okA := a.(*ssa.UnOp)
+	ub, okB := b.(*ssa.UnOp)
+	if !okA || !okB || ua.Op != token.MUL || ub.Op != token.MUL {
+		return false
+	}
+	fa, okA := ua.X.(*ssa.FieldAddr)
+	fb, okB := ub.X.(*ssa.FieldAddr)
+	if !okA || !okB || fa.Field != fb.Field || !types.Identical(fa.X.Type(), fb.X.Type()) {
+		return false
+	}
+	if _, isPtr := fa.X.Type().Underlying().(*types.Pointer); !isPtr {
+		return false
+	}
+	if !(ua.Block().Dominates(ub.Block()) || ub.Block().Dominates(ua.Block())) {
+		return false
+	}
+	if !s.sameRead(p, fa.X, fb.X, depth+1) {
+		return false
+	}
+	fld := fieldOf(fa.X.Type(), fa.Field)
+	if s.stable == nil {
+		s.stable = map[*types.Var]bool{}
+	}
+	st, known := s.stable[fld]
+	if !known {
+		st = c03FieldStable(p, s.sums, s.fn, fld)
+		s.stable[fld] = st
+	}
+	return st
+}
+
+// chainOn: fieldChainOnWeb, where the base of the chain may also be another read of the location v was read from
+// (`in := link.InNode` compared, `link.InNode` handed to the constructor).
+func (s *innovSite) chainOn(p *Prog, t *Term, v ssa.Value, path ...string) bool {
+	if fieldChainOnWeb(t, v, path...) {
+		return true
+	}
+	for i := len(path) - 1; i >= 0; i-- {
+		if t == nil || t.Op != "field" || t.Name != path[i] {
+			return false
+		}
+		t = t.Args[0]
+	}
+	return t != nil && t.V != nil && v != nil && s.sameRead(p, t.V, v, 0)
+}
+
+// c03RecordsStable: while fn runs, no record that already sits in a list of records is modified: no function reachable
+// from fn stores into an element of a slice/array of `rec` or into a field of a `rec` that it did not allocate itself
+// (appending a further record does not touch the ones present). Two reads of list[i] through the same list value and
+// an equal index then yield the same record.
+func c03RecordsStable(p *Prog, sums *Summaries, fn *ssa.Function, rec types.Type) bool {
+	fresh := func(c *ssa.Function) bool {
+		if sums == nil {
+			return false
+		}
+		sm := sums.Ctor(c)
+		return sm.Why == "" && sm.Fresh
+	}
+	isRec := func(t types.Type) bool { return types.Identical(deref(t), rec) }
+	re := p.Reachable([]*ssa.Function{fn}, nil)
+	for _, f := range re.RepoFuncs() {
+		for _, e := range Writes(f) {
+			switch e.Kind {
+			case "field":
+				if e.Owner == nil || !types.Identical(e.Owner, rec) {
+					continue
+				}
+				if p.AddrRootClass(f, e.Addr, fresh) != "fresh" {
+					return false
+				}
+			case "elem", "deref":
+				if pt, ok := e.Addr.Type().Underlying().(*types.Pointer); ok && isRec(pt.Elem()) && p.AddrRootClass(f, e.Addr, fresh) != "fresh" {
+					return false
+				}
+			}
+		}
+	}
+	return true
+}
+
+// indexMatch recognises a lookup that hands the POSITION of the matched record out of the scan instead of acting inside it:
+//
+//	idx := -1; for i := range list { rec := list[i]; if <match rec> { idx = i; break } }; if idx >= 0 { use list[idx] }
+//
+// The record the gene at block `at` is built from (s.innAlloc) is list[ip] with ip a phi outside the scan. A comparison
+// of ip with a constant that holds at `at` rules out every incoming edge of ip that carries a constant failing it (the
+// "not found" sentinel). If every edge that is left carries one and the same value v defined inside the scan (the
+// scan's index of the current iteration), then at `at` ip equals the v of the iteration on which the scan was left, the
+// branch outcomes known on all of those edges hold for that iteration, and list[ip] is the record list[v] they were
+// evaluated on - the list being the same SSA value, and the records in it not being modified while the mutator runs
+// (c03RecordsStable). Returned: those outcomes, the in-scan names of the record list[v] (local copies and element
+// addresses), and the edges out of the scan that carry v into ip (leaving on one of them is leaving with a match).
+func (s *innovSite) indexMatch(p *Prog, at *ssa.BasicBlock) (conds []Guard, recs map[ssa.Value]bool, exits [][2]*ssa.BasicBlock) {
+	conds, recs, exits, _, _ = s.indexMatchPos(p, at)
+	return
+}
+
+// indexMatchPos is indexMatch, returning in addition the position variable ip and whether the position handed out is
+// known to be non-negative (v is the index of a scan that counts up from zero).
+func (s *innovSite) indexMatchPos(p *Prog, at *ssa.BasicBlock) (conds []Guard, recs map[ssa.Value]bool, exits [][2]*ssa.BasicBlock, pos *ssa.Phi, nonNeg bool) {
+	if s.innLoop == nil || s.innAlloc == nil {
+		return nil, nil, nil, nil, false
+	}
+	elemAddr := func(v ssa.Value) *ssa.IndexAddr {
+		switch x := v.(type) {
+		case *ssa.IndexAddr:
+			return x
+		case *ssa.Alloc:
+			var ia *ssa.IndexAddr
+			n := 0
+			for _, ref := range *x.Referrers() {
+				switch y := ref.(type) {
+				case *ssa.Store:
+					if y.Addr != ssa.Value(x) {
+						return nil // the copy's address escapes
+					}
+					n++
+					if ld, ok := y.Val.(*ssa.UnOp); ok && ld.Op == token.MUL {
+						ia, _ = ld.X.(*ssa.IndexAddr)
+					}
+				case *ssa.FieldAddr:
+					// the copy's fields are only read
+					for _, r2 := range *y.Referrers() {
+						if ld, ok := r2.(*ssa.UnOp); ok && ld.Op == token.MUL {
+							continue
+						}
+						if _, ok := r2.(*ssa.DebugRef); ok {
+							continue
+						}
+						return nil
+					}
+				case *ssa.UnOp, *ssa.DebugRef:
+				default:
+					return nil
+				}
+			}
+			if n == 1 {
+				return ia
+			}
+		}
+		return nil
+	}
+	ia := elemAddr(s.innAlloc)
+	if ia == nil {
+		return nil, nil, nil, nil, false
+	}
+	ip, ok := stripCT(ia.Index).(*ssa.Phi)
+	if !ok || s.innLoop.Blocks[ip.Block()] {
+		return nil, nil, nil, nil, false
+	}
+	holds := func(c int64, op token.Token, k int64) bool {
+		switch op {
+		case token.EQL:
+			return c == k
+		case token.NEQ:
+			return c != k
+		case token.LSS:
+			return c < k
+		case token.LEQ:
+			return c <= k
+		case token.GTR:
+			return c > k
+		case token.GEQ:
+			return c >= k
+		}
+		return true
+	}
+	type fact struct {
+		op token.Token
+		k  int64
+	}
+	var facts []fact
+	for _, g := range Guards(at) {
+		x, y, op, isCmp := CmpFact(g.Cond, g.True)
+		if !isCmp || stripCT(x) != ssa.Value(ip) {
+			continue
+		}
+		if k, isK := constInt(y); isK {
+			facts = append(facts, fact{op, k})
+		}
+	}
+	if len(facts) == 0 {
+		return nil, nil, nil, nil, false
+	}
+	var v ssa.Value
+	var from []*ssa.BasicBlock
+	for i, e := range ip.Edges {
+		if i >= len(ip.Block().Preds) {
+			return nil, nil, nil, nil, false
+		}
+		if c, isK := constInt(e); isK {
+			feasible := true
+			for _, f := range facts {
+				if !holds(c, f.op, f.k) {
+					feasible = false
+				}
+			}
+			if feasible {
+				return nil, nil, nil, nil, false // a constant position: nothing is known about the record there
+			}
+			continue
+		}
+		e = stripCT(e)
+		if v != nil && v != e {
+			return nil, nil, nil, nil, false
+		}
+		v = e
+		from = append(from, ip.Block().Preds[i])
+	}
+	vin, isInstr := v.(ssa.Instruction)
+	if v == nil || !isInstr || !s.innLoop.Blocks[vin.Block()] {
+		return nil, nil, nil, nil, false
+	}
+	// the edges: straight out of the scan, possibly through blocks of their own that nothing else enters
+	for _, f := range from {
+		b, nxt := f, ip.Block()
+		for n := 0; !s.innLoop.Blocks[b]; n++ {
+			if len(b.Preds) != 1 || n > 4 {
+				return nil, nil, nil, nil, false
+			}
+			b, nxt = b.Preds[0], b
+		}
+		exits = append(exits, [2]*ssa.BasicBlock{b, nxt})
+	}
+	// the records: list[v] with the list value the gene's record is read from
+	list := stripCT(ia.X)
+	recs = map[ssa.Value]bool{}
+	Instrs(s.fn, func(b *ssa.BasicBlock, _ int, in ssa.Instruction) {
+		switch x := in.(type) {
+		case *ssa.IndexAddr:
+			if s.innLoop.Blocks[b] && stripCT(x.X) == list && stripCT(x.Index) == v {
+				recs[x] = true
+			}
+		case *ssa.Alloc:
+			if a := elemAddr(x); a != nil && s.innLoop.Blocks[a.Block()] && stripCT(a.X) == list && stripCT(a.Index) == v {
+				recs[x] = true
+			}
+		}
+	})
+	if len(recs) == 0 {
+		return nil, nil, nil, nil, false
+	}
+	et := deref(ia.Type())
+	if !c03RecordsStable(p, s.sums, s.fn, et) {
+		return nil, nil, nil, nil, false
+	}
+	for i, f := range from {
+		cs := condsAt(f, ip.Block())
+		if i == 0 {
+			conds = cs
+		} else {
+			conds = intersectGuards(conds, cs)
+		}
+	}
+	if idx, _, ok := scanFromZero(s.innLoop); ok && stripCT(idx) == v {
+		nonNeg = true
+	}
+	return conds, recs, exits, ip, nonNeg
+}
+
+// c03MatchExitIssues: the scan handed the position of a matched record out (indexMatch); is there a way from one of the
+// edges on which it did so to an instruction that issues a number / node id or stores a record? On those edges the
+// position variable equals the scan's index, which is not negative; a branch whose outcome says otherwise
+// (`idx < 0`, `idx == -1`: "not found") is not taken. The position's block is not entered a second time (that would be
+// the result of another scan - another attempt), so the outcomes pruned speak about the position handed out.
+// Anything else is followed as in c03PathAfter (over-approximation: sound for "no such way").
+func (s *innovSite) c03MatchExitIssues(p *Prog, at *ssa.BasicBlock, nonNil []ssa.Value, target func(ssa.Instruction) bool, avoidEdge func(from, to *ssa.BasicBlock) bool) []string {
+	_, _, exits, ip, nonNeg := s.indexMatchPos(p, at)
+	if ip == nil {
+		return nil
+	}
+	sat := func(op token.Token, k int64) bool {
+		// is there x >= 0 with x op k ?
+		switch op {
+		case token.EQL, token.LEQ:
+			return k >= 0
+		case token.LSS:
+			return k > 0
+		}
+		return true
+	}
+	for _, e := range exits {
+		e := e
+		// the block through which this exit reaches the position variable
+		last := e[0]
+		for b, n := e[1], 0; b != ip.Block(); n++ {
+			if len(b.Succs) != 1 || n > 5 {
+				return []string{"the way from the scan to the position variable is not a straight line"}
+			}
+			last, b = b, b.Succs[0]
+		}
+		avoid := func(from, to *ssa.BasicBlock) bool {
+			if avoidEdge != nil && avoidEdge(from, to) {
+				return true
+			}
+			if from == e[0] && to != e[1] {
+				return true // not this exit
+			}
+			if to == ip.Block() && from != last {
+				return true // another scan's result
+			}
+			if iff, ok := from.Instrs[len(from.Instrs)-1].(*ssa.If); ok && nonNeg && from.Succs[0] != from.Succs[1] {
+				if x, y, op, isCmp := CmpFact(iff.Cond, from.Succs[0] == to); isCmp && stripCT(x) == ssa.Value(ip) {
+					if k, isK := constInt(y); isK && !sat(op, k) {
+						return true
+					}
+				}
+			}
+			return false
+		}
+		if w := c03PathAfter(p, s.fn, e[0].Instrs[len(e[0].Instrs)-1], condsAt(e[0], e[1]), nonNil, target, avoid); w != nil {
+			return w
+		}
+	}
+	return nil
+}
